@@ -1,5 +1,6 @@
 import Dtr.Proofs.RowIt
 import Dtr.Proofs.PosOf
+import Dtr.Model.AfterError
 /-!
 # C06 — values are bound to signals by header name; every row is a complete vector
 -/
@@ -208,5 +209,45 @@ theorem C06_prev_is_last_row (tc : TestCase) (fuel : Nat) (s sg : RowIt) (ev : E
     ∃ top : CRow, sg.prev = some top.entries ∧ genInputs tc top.entries (changedFlags s.prev top.entries) = .ok ev.inputs := by
   obtain ⟨top, h1, _, _, h4, _⟩ := getRow_row tc fuel s sg ev h
   exact ⟨top, h1, by simpa using h4⟩
+
+/-- **The previous row is the last vector handed to the driver — also when that call failed.**  Whatever item a
+`next()` returns for a row it took from `get_row` — the row, a driver error, a refused answer —, the iterator keeps
+that row as the previous row (and the rest of the expansion on the row stack): the `changed` flags of the next row are
+relative to what the device was last sent.  (`RowIt.nextC`: the state of the code behind every item.) -/
+theorem C06_prev_behind_every_item {δ : Type} (tc : TestCase) (drv : Driver δ) (fuel : Nat) (s s' : RowIt) (d d' : δ)
+    (i : Item) (calls : List Call) (hc : calls ≠ [])
+    (h : s.nextC tc drv fuel d = .item i s' d' calls) :
+    ∃ ev sg, getRow tc fuel s = .row ev sg ∧ s'.prev = sg.prev ∧ s'.cache = sg.cache ∧
+      ∃ c, calls = [c] ∧ c.inputs = ev.inputs := by
+  unfold RowIt.nextC at h
+  split at h
+  · simp only [NextOut.item.injEq] at h; exact absurd h.2.2.2.symm hc
+  · cases h
+  · cases h
+  · cases h
+  · next ev sg hg =>
+    refine ⟨ev, sg, hg, ?_⟩
+    split at h
+    · split at h
+      · simp only [NextOut.item.injEq] at h
+        obtain ⟨_, h2, _, h4⟩ := h
+        subst h2; exact ⟨rfl, rfl, _, h4.symm, rfl⟩
+      · next d1 outs hrw =>
+        simp only at h
+        split at h
+        · simp only [NextOut.item.injEq] at h
+          obtain ⟨_, h2, _, h4⟩ := h
+          subst h2; exact ⟨rfl, rfl, _, h4.symm, rfl⟩
+        · simp only [NextOut.item.injEq] at h
+          obtain ⟨_, h2, _, h4⟩ := h
+          subst h2; exact ⟨rfl, rfl, _, h4.symm, rfl⟩
+        · cases h
+    · split at h
+      · simp only [NextOut.item.injEq] at h
+        obtain ⟨_, h2, _, h4⟩ := h
+        subst h2; exact ⟨rfl, rfl, _, h4.symm, rfl⟩
+      · simp only [NextOut.item.injEq] at h
+        obtain ⟨_, h2, _, h4⟩ := h
+        subst h2; exact ⟨rfl, rfl, _, h4.symm, rfl⟩
 
 end Dtr
